@@ -4,7 +4,7 @@
    parser model. *)
 From Coq Require Import ZArith QArith Qabs Qreduction String Ascii List Bool Lia Permutation Setoid Morphisms.
 From PT Require Import Str Dec Py Loaders Formula FormulaMachine FormulaAlg C06Check AtomEnv Pyparse TableEnv
-     C19Proofs Fasta.
+     C02Proofs C19Proofs Fasta.
 From PT.Gen Require Import FastaTables.
 Import ListNotations.
 Open Scope Q_scope.
@@ -814,9 +814,18 @@ Definition avgs_okb {A} (ty : string) (rows : list (string * string * A)) (ts : 
   | None => false
   end.
 
+(* ---- what makes Molecule.__init__ succeed on a sum of entries: no tritium, labile masses >= 0, and
+   > 0 for an entry that has labile hydrogen *)
+Definition Qlt_bool (x y : Q) : bool := negb (Qle_bool y x).
+Definition entry_okb (E : aenv) (m : molecule) : bool :=
+  (negb (dict_mem (f_atoms (m_labile m)) aT) && Qle_bool 0 (f_mass E (m_labile m)) &&
+   (negb (dict_mem (f_atoms (m_labile m)) aH1) || Qlt_bool 0 (f_mass E (m_labile m))))%bool.
+Definition entries_okb (E : aenv) (ts : tables) : bool :=
+  forallb (fun kt : string * table => forallb (fun km : string * molecule => entry_okb E (snd km)) (snd kt)) ts.
+
 Definition sweep_all (ts : tables) : bool :=
   (tables_okb the_env ts && keys_okb ts && avgs_okb "aa" aa_averages ts &&
-   avgs_okb "dna" nucleic_codes ts && avgs_okb "rna" nucleic_codes ts)%bool.
+   avgs_okb "dna" nucleic_codes ts && avgs_okb "rna" nucleic_codes ts && entries_okb the_env ts)%bool.
 
 (* the whole of fasta.py's table construction, run by the kernel on the regenerated rows *)
 Lemma sweep_ok : on_fres the_tables sweep_all = true.
@@ -891,6 +900,7 @@ Theorem ambiguity_is_average_tables : forall ts, the_tables = FOk ts ->
        exists m ms, tab_get tab code = Some m /\ parts_of tab (chars members) = Some ms /\ is_average m ms).
 Proof.
   intros ts H. pose proof (sweep_elim ts H) as S. unfold sweep_all in S.
+  apply andb_prop in S. destruct S as [S _].
   apply andb_prop in S. destruct S as [S Hr]. apply andb_prop in S. destruct S as [S Hd].
   apply andb_prop in S. destruct S as [S Ha].
   split; [|split]; apply avgs_elim; assumption.
@@ -938,4 +948,206 @@ Theorem sequence_mass_is_sum_tables : forall ts ty tab name s sm, the_tables = F
 Proof.
   intros ts ty tab name s sm H Ht Hs.
   exact (sequence_mass_is_sum _ _ _ _ _ (the_tables_consistent _ _ _ H Ht) Hs).
+Qed.
+
+(* ================================================================ 13. every string over a code table has a Sequence *)
+Lemma dict_mem_in : forall d a, dict_mem d a = true <-> In a (keys d).
+Proof.
+  intros d a. unfold dict_mem. induction d as [|[b w] r IH]; simpl.
+  - split; [discriminate|intros []].
+  - destruct (atom_eqb a b) eqn:E.
+    + apply atom_eqb_eq in E. subst b. split; [intros _; left; reflexivity|reflexivity].
+    + rewrite IH. split; [intro H; right; exact H|].
+      intros [H|H]; [|exact H]. subst b. rewrite atom_eqb_refl in E. discriminate.
+Qed.
+
+(* an atom of the sequence's formula is an atom of one of its residues *)
+Lemma seq_atoms_from_parts : forall E parts a,
+  In a (keys (count_atoms (hill_struct E (count_atoms (parts_structure parts))))) ->
+  exists p, In p parts /\ In a (keys (f_atoms (m_labile p))).
+Proof.
+  intros E parts a H. apply keys_count_atoms in H. destruct H as [it [Hit Ha]].
+  rewrite hill_struct_eq in Hit. apply in_map_iff in Hit. destruct Hit as [q [Hq Hin]]. subst it.
+  simpl in Ha. destruct Ha as [Ha|[]]. subst a.
+  pose proof (Permutation_in _ (hsort_perm E _) Hin) as Hd.
+  assert (Hk : In (fst q) (keys (count_atoms (parts_structure parts)))) by (apply in_map; exact Hd).
+  apply keys_count_atoms in Hk. destruct Hk as [it' [Hit' Ha']].
+  unfold parts_structure in Hit'. apply in_flat_map in Hit'. destruct Hit' as [p [Hp Hitp]].
+  exists p. split; [exact Hp|]. unfold f_atoms. apply keys_count_atoms. exists it'. split; assumption.
+Qed.
+
+Lemma seq_labile_mass : forall E parts,
+  f_mass E (formula_of_formula E (seq_formula E parts)) == qsum (map (fun p => f_mass E (m_labile p)) parts).
+Proof.
+  intros E parts. unfold f_mass at 1. unfold f_atoms.
+  change (f_struct (formula_of_formula E (seq_formula E parts)))
+    with (hill_struct E (count_atoms (parts_structure parts))).
+  rewrite dweight_atoms_hill. unfold count_atoms. rewrite dweight_count_frag, fweight_flat_map.
+  apply qsum_map_ext. intro p. unfold f_mass, f_atoms, count_atoms. symmetry. apply dweight_count_frag.
+Qed.
+
+Lemma qsum_nonneg : forall l, Forall (fun x => 0 <= x) l -> 0 <= qsum l.
+Proof.
+  intros l H. induction H as [|x r Hx _ IH]; simpl; [apply Qle_refl|].
+  rewrite <- (Qplus_0_l 0). apply Qplus_le_compat; assumption.
+Qed.
+
+Lemma qsum_pos : forall l x, Forall (fun x => 0 <= x) l -> In x l -> 0 < x -> 0 < qsum l.
+Proof.
+  intros l x H. induction H as [|y r Hy Hr IH]; intros Hin Hx; [destruct Hin|].
+  simpl. destruct Hin as [->|Hin].
+  - rewrite <- (Qplus_0_r 0). apply Qplus_lt_le_compat; [exact Hx|apply qsum_nonneg; exact Hr].
+  - rewrite <- (Qplus_0_r 0). rewrite (Qplus_comm y). apply Qplus_lt_le_compat; [exact (IH Hin Hx)|exact Hy].
+Qed.
+
+Definition entry_ok (E : aenv) (m : molecule) : Prop :=
+  ~ In aT (keys (f_atoms (m_labile m))) /\ 0 <= f_mass E (m_labile m) /\
+  (In aH1 (keys (f_atoms (m_labile m))) -> 0 < f_mass E (m_labile m)).
+
+Lemma entry_okb_ok : forall E m, entry_okb E m = true -> entry_ok E m.
+Proof.
+  intros E m H. unfold entry_okb in H. apply andb_prop in H. destruct H as [H H3].
+  apply andb_prop in H. destruct H as [H1 H2]. split; [|split].
+  - intro Hin. apply dict_mem_in in Hin. rewrite Hin in H1. discriminate.
+  - apply Qle_bool_iff. exact H2.
+  - intro Hin. apply dict_mem_in in Hin. rewrite Hin in H3. simpl in H3. unfold Qlt_bool in H3.
+    apply Qnot_le_lt. intro Hle. apply Qle_bool_iff in Hle. rewrite Hle in H3. discriminate.
+Qed.
+
+(* Molecule.__init__ succeeds on the sum of entries that are entry_ok *)
+Theorem parts_total : forall E name parts, Forall (entry_ok E) parts ->
+  exists m, sequence_of_parts E name parts = FOk m.
+Proof.
+  intros E name parts Hall. rewrite sequence_of_parts_eq. unfold molecule_of.
+  set (M0 := formula_of_formula E (seq_formula E parts)).
+  assert (HA : f_atoms M0 = count_atoms (hill_struct E (count_atoms (parts_structure parts)))) by reflexivity.
+  rewrite Forall_forall in Hall.
+  (* no tritium *)
+  destruct (dict_mem (f_atoms M0) aT) eqn:HT.
+  { exfalso. apply dict_mem_in in HT. rewrite HA in HT.
+    destruct (seq_atoms_from_parts _ _ _ HT) as [p [Hp Hk]]. destruct (Hall p Hp) as [Hn _]. exact (Hn Hk). }
+  set (M := mkF (f_struct M0) (f_kind M0) (Some (volume_density E M0 (sum_vol parts))) (f_name M0)).
+  assert (Hrep : forall tgt, exists g, f_replace1 E M aH1 tgt = FOk g).
+  { intro tgt. unfold f_replace1. change (f_atoms M) with (f_atoms M0). change (f_density M) with (Some (volume_density E M0 (sum_vol parts))).
+    destruct (dget (f_atoms M0) aH1) as [c|] eqn:Hs; [|eexists; reflexivity].
+    assert (Hin : In aH1 (keys (f_atoms M0))).
+    { apply dict_mem_in. unfold dict_mem. rewrite Hs. reflexivity. }
+    rewrite HA in Hin. destruct (seq_atoms_from_parts _ _ _ Hin) as [p [Hp Hk]].
+    assert (Hpos : 0 < f_mass E M0).
+    { unfold M0. rewrite seq_labile_mass. apply (qsum_pos _ (f_mass E (m_labile p))).
+      - apply Forall_forall. intros x Hx. apply in_map_iff in Hx. destruct Hx as [p' [<- Hp']].
+        destruct (Hall p' Hp') as [_ [Hge _]]. exact Hge.
+      - apply in_map_iff. exists p. split; [reflexivity|exact Hp].
+      - destruct (Hall p Hp) as [_ [_ Hgt]]. exact (Hgt Hk). }
+    change (dweight (e_mass E) (f_atoms M0)) with (f_mass E M0).
+    destruct (Qeq_bool (f_mass E M0) 0) eqn:Hz.
+    - exfalso. apply Qeq_bool_iff in Hz. rewrite Hz in Hpos. exact (Qlt_irrefl 0 Hpos).
+    - eexists. reflexivity. }
+  destruct (Hrep aH) as [gH EH]. destruct (Hrep aD) as [gD ED].
+  fold M. rewrite EH. cbn [fbind]. rewrite ED. cbn [fbind]. eexists. reflexivity.
+Qed.
+
+Lemma parts_of_total : forall tab cs, (forall c, In c cs -> tab_get tab (code_key c) <> None) ->
+  exists parts, parts_of tab cs = Some parts.
+Proof.
+  intros tab cs. induction cs as [|c r IH]; intro H.
+  - exists []. reflexivity.
+  - simpl. destruct (tab_get tab (code_key c)) as [m|] eqn:E.
+    + destruct IH as [ms Hms]; [intros c' Hc'; apply H; right; exact Hc'|]. rewrite Hms. eexists. reflexivity.
+    + exfalso. apply (H c); [left; reflexivity|exact E].
+Qed.
+
+Theorem the_tables_entries_ok : forall ts ty tab, the_tables = FOk ts -> tables_get ts ty = Some tab ->
+  forall k m, tab_get tab k = Some m -> entry_ok the_env m.
+Proof.
+  intros ts ty tab H Ht k m Hk. pose proof (sweep_elim ts H) as S. unfold sweep_all in S.
+  apply andb_prop in S. destruct S as [_ S]. unfold entries_okb in S. rewrite forallb_forall in S.
+  pose proof (S _ (tables_get_in _ _ _ Ht)) as St. cbn [snd] in St. rewrite forallb_forall in St.
+  apply entry_okb_ok. exact (St _ (tab_get_in _ _ _ Hk)).
+Qed.
+
+(* with the tables of this source tree, EVERY string whose codes (after removing spaces and cutting at
+   '*') are in the table has a Sequence; a string with another code raises KeyError *)
+Theorem sequence_total : forall ts ty tab name s, the_tables = FOk ts -> tables_get ts ty = Some tab ->
+  (forall c, In c (chars (clean s)) -> tab_get tab (code_key c) <> None) ->
+  exists sm, sequence_of the_env tab name s = FOk sm.
+Proof.
+  intros ts ty tab name s H Ht Hc. destruct (parts_of_total tab _ Hc) as [parts Hp].
+  assert (Hall : Forall (entry_ok the_env) parts).
+  { pose proof (parts_of_spec _ _ _ Hp) as HF. clear -HF H Ht.
+    induction HF as [|c p cs ps Hcp _ IH]; constructor; [|exact IH].
+    exact (the_tables_entries_ok _ _ _ H Ht _ _ Hcp). }
+  destruct (parts_total the_env name parts Hall) as [m Hm].
+  exists (mkSeq m (clean s)). unfold sequence_of. cbv zeta. rewrite Hp. rewrite Hm. reflexivity.
+Qed.
+
+Theorem sequence_unknown_code : forall E tab name s c, In c (chars (clean s)) ->
+  tab_get tab (code_key c) = None -> sequence_of E tab name s = FErr KeyErr.
+Proof.
+  intros E tab name s c Hin Hc. unfold sequence_of. cbv zeta.
+  assert (Hn : parts_of tab (chars (clean s)) = None).
+  { induction (chars (clean s)) as [|x r IH]; [destruct Hin|]. simpl. destruct Hin as [->|Hin].
+    - rewrite Hc. reflexivity.
+    - destruct (tab_get tab (code_key x)); [|reflexivity]. rewrite (IH Hin). reflexivity. }
+  rewrite Hn. reflexivity.
+Qed.
+
+(* ================================================================ 14. _code_average computes the equal-weight mean *)
+Lemma average_loop_spec : forall tab bases f v q f' v' q',
+  average_loop tab bases (f, v, q) = FOk (f', v', q') ->
+  exists members, parts_of tab bases = Some members /\
+    f_struct f' = (f_struct f ++ parts_structure members)%list /\
+    v' == v + qsum (map m_vol members) /\ q' == q + qsum (map m_charge members).
+Proof.
+  intros tab bases. induction bases as [|c r IH]; intros f v q f' v' q' H.
+  - simpl in H. inversion H; subst. exists []. simpl. rewrite app_nil_r. repeat split; ring.
+  - simpl in H. destruct (tab_get tab (code_key c)) as [base|] eqn:E; [|discriminate].
+    destruct (IH _ _ _ _ _ _ H) as [ms [Hp [Hs [Hv Hq]]]].
+    exists (base :: ms). simpl. rewrite E, Hp. split; [reflexivity|]. split.
+    + rewrite Hs. unfold f_iadd. cbn [f_struct]. unfold parts_structure. simpl. rewrite app_assoc. reflexivity.
+    + split; [rewrite Hv|rewrite Hq]; ring.
+Qed.
+
+Lemma parts_of_length : forall tab cs ms, parts_of tab cs = Some ms -> length ms = length cs.
+Proof.
+  intros tab cs. induction cs as [|c r IH]; intros ms H; simpl in H.
+  - inversion H. reflexivity.
+  - destruct (tab_get tab (code_key c)); [|discriminate]. destruct (parts_of tab r) as [ms'|]; [|discriminate].
+    inversion H. simpl. rewrite (IH ms' eq_refl). reflexivity.
+Qed.
+
+Lemma chars_length : forall s, length (chars s) = String.length s.
+Proof. induction s as [|c r IH]; simpl; [reflexivity|]. rewrite IH. reflexivity. Qed.
+
+(* for ANY table: the formula, volume and charge _code_average returns are the equal-weight means
+   over the entries of the codes it is given *)
+Theorem code_average_is_mean : forall E tab bases f v q, code_average E tab bases = FOk (f, v, q) ->
+  exists members, parts_of tab (chars bases) = Some members /\
+    v == qmean (map m_vol members) /\ q == qmean (map m_charge members) /\
+    forall a, cnt_s a (f_struct f) == qmean (map (fun p => cnt_s a (f_struct (m_labile p))) members).
+Proof.
+  intros E tab bases f v q H. unfold code_average in H.
+  destruct (average_loop tab (chars bases) (empty_formula E, 0, 0)) as [[[f0 v0] q0]| |] eqn:EL; simpl in H; try discriminate.
+  destruct (average_loop_spec _ _ _ _ _ _ _ _ EL) as [ms [Hp [Hs [Hv Hq]]]].
+  exists ms. split; [exact Hp|]. pose proof (parts_of_length _ _ _ Hp) as Hlen. rewrite chars_length in Hlen.
+  simpl in Hs.
+  assert (Hcnt : forall a, cnt_s a (f_struct f0) == qsum (map (fun p => cnt_s a (f_struct (m_labile p))) ms)).
+  { intro a. rewrite Hs. apply cnt_flat_map. }
+  destruct ms as [|m0 ms'].
+  - simpl in Hlen. rewrite <- Hlen in H. simpl in H. inversion H; subst. simpl in *.
+    split; [rewrite Hv; ring|]. split; [rewrite Hq; ring|]. intro a. rewrite Hcnt. reflexivity.
+  - set (n := inject_Z (Z.of_nat (String.length bases))) in *.
+    assert (Hn : n == inject_Z (Z.of_nat (length (m0 :: ms')))) by (unfold n; rewrite Hlen; reflexivity).
+    assert (Hpos : 0 < n).
+    { unfold n. rewrite <- Hlen. simpl length. unfold Qlt. simpl. lia. }
+    assert (Hle : Qle_bool n 0 = false).
+    { destruct (Qle_bool n 0) eqn:Ele; [|reflexivity]. apply Qle_bool_iff in Ele.
+      exfalso. exact (Qlt_not_le _ _ Hpos Ele). }
+    rewrite Hle in H. inversion H; subst f v q. clear H.
+    assert (Hm : forall g : molecule -> Q, qmean (map g (m0 :: ms')) == qsum (map g (m0 :: ms')) / n).
+    { intro g. unfold qmean. cbn [map].
+      change (Datatypes.length (g m0 :: map g ms')) with (Datatypes.length (map g (m0 :: ms'))).
+      rewrite map_length. rewrite <- Hn. reflexivity. }
+    split; [rewrite Hm, Hv; unfold Qdiv; ring|]. split; [rewrite Hm, Hq; unfold Qdiv; ring|].
+    intro a. rewrite Hm. rewrite rmul_cnt. rewrite Hcnt. unfold Qdiv. ring.
 Qed.
